@@ -358,7 +358,7 @@ func Build(id, tier string, seed int64) (*BehavCheck, error) {
 	}
 	_ = rand.Int
 	// every history of 3 (quick) / 4 (thorough) calls from the empty store: 7 250 / 118 106 behaviours
-	if id == "C01" || id == "C08" || id == "C09" || id == "C14" {
+	if id == "C01" || id == "C02" || id == "C03" || id == "C08" || id == "C09" || id == "C11" || id == "C14" || id == "C15" {
 		c.ExhD, c.ExhK = tierNum(tier, 3, 4), 2
 	}
 	// implementation -> specification: recorded random histories validated by TLC against IavlTrace.tla
